@@ -90,6 +90,9 @@ func nodeText(sb *strings.Builder, n *Node) {
 	case nLocal:
 		sb.WriteString("I ")
 		listText(sb, n.Body)
+	case nIf:
+		fmt.Fprintf(sb, "Q %d ", n.K)
+		listText(sb, n.Body)
 	case nNative:
 		switch n.Nat.Kind {
 		case natTransfer:
@@ -115,6 +118,7 @@ type world struct {
 	hashes   [numContracts]util.Uint160
 	gas, neo util.Uint160
 	policy   util.Uint160
+	ext      util.Uint160 // an ordinary account (no contract)
 }
 
 func keyBytes(k int) []byte { return []byte{byte(k)} }
@@ -142,7 +146,11 @@ func (w *world) nativeArgs(n *Node, self util.Uint160, selfID int) (util.Uint160
 		if n.Nat.HasCb {
 			data = w.encList(n.Nat.Cb, n.Nat.To)
 		}
-		return tok, "transfer", []any{self, w.hashes[n.Nat.To], int64(n.Nat.Amt), data}
+		to := w.ext
+		if n.Nat.To < numContracts {
+			to = w.hashes[n.Nat.To]
+		}
+		return tok, "transfer", []any{self, to, int64(n.Nat.Amt), data}
 	case natSetFee:
 		return w.policy, "setFeePerByte", []any{int64(n.Nat.Val)}
 	}
@@ -180,6 +188,8 @@ func (w *world) encNode(n *Node, self int) any {
 		return []any{int64(nAbort)}
 	case nLocal:
 		return []any{int64(nLocal), w.encList(n.Body, self)}
+	case nIf:
+		return []any{int64(nIf), keyBytes(n.K), w.encList(n.Body, self)}
 	case nNative:
 		h, m, args := w.nativeArgs(n, w.hashes[self], self)
 		return []any{int64(nNative), h, m, int64(n.Fl), args}
@@ -272,6 +282,15 @@ func (c *compiler) node(n *Node) {
 		c.funcs = append(c.funcs, n.Body)
 		c.fname = append(c.fname, name)
 		a.jmp(opcode.CALLL, name)
+	case nIf:
+		le := c.fresh("q")
+		a.bytes(keyBytes(n.K))
+		a.syscall(interopnames.SystemStorageGetContext)
+		a.syscall(interopnames.SystemStorageGet)
+		a.ops(opcode.ISNULL)
+		a.jmp(opcode.JMPIFL, le)
+		c.list(n.Body)
+		a.label(le)
 	case nNative:
 		h, m, args := c.w.nativeArgs(n, c.self, entryID)
 		emitAny(a, args)
